@@ -45,7 +45,7 @@ func constGuardEdges(c *Ctx, fc *FCFG) []cfgEdge {
 		}
 		return "", false
 	}
-	return fc.edgesEntailing(cls, func(v map[string]bool) bool { return !v["isTrue"] && !v["isFalse"] })
+	return fc.edgesEntailing(cls, func(v map[string]bool) bool { return (v["$has:isTrue"] && !v["isTrue"]) && (v["$has:isFalse"] && !v["isFalse"]) })
 }
 
 func init() {
@@ -79,6 +79,8 @@ func init() {
 					return false
 				}
 				edges := constGuardEdges(c, fc)
+				// ... or across the nil result of a key-checking helper that makes the comparison
+				edges = append(edges, c.nilResultGuardEdges(fc, func(h *FCFG) []cfgEdge { return constGuardEdges(c, h) })...)
 				return len(edges) > 0 && !fc.reachableAvoiding(loc.B, edges)
 			}
 			var obs []Obligation
@@ -277,7 +279,7 @@ func init() {
 			}
 			// on a path where the package was just created (isNew holds), an edge entailing
 			// (!isNew || !hasLang) means no language package is configured
-			skip := fc.edgesEntailing(cls, func(v map[string]bool) bool { return !v["isNew"] || !v["hasLang"] })
+			skip := fc.edgesEntailing(cls, func(v map[string]bool) bool { return (v["$has:isNew"] && !v["isNew"]) || (v["$has:hasLang"] && !v["hasLang"]) })
 			bad := false
 			for _, d := range defs {
 				seen := map[*cfg.Block]bool{}
